@@ -20,6 +20,7 @@ for id in "$@"; do
   o=$(VERIF_REPO="$R" ./check $id $TIER 2>&1); rc=$?
   nv=$(echo "$o" | grep -c '^VIOLATION')
   echo "check $id $TIER: exit $rc; $nv VIOLATION line(s): $(echo "$o" | grep '^VIOLATION' | head -2 | tr '\n' ' ' | cut -c1-220)"
+  if [ $rc -ne 0 ] && [ $nv -eq 0 ]; then echo "  CRASH-OUTPUT: $(echo "$o" | tail -12 | tr '\n' '~' | cut -c1-1500)"; fi
   if [ $rc -ne 0 ] || [ $nv -ne 0 ]; then
     bad=1
     python3 - "$o" <<'PY'
